@@ -499,7 +499,7 @@ inline DResult decode(const unsigned char* data, size_t n) {
     }
     case CONNACK: {
         uint8_t f = r.u8(); p.rc = r.u8(); p.has_rc = true;
-        if (r.fail || (f & 0xFE)) return bad("connack flags");
+        if (r.fail || ((f & 0xFE) && dec_opts().ranges)) return bad("connack flags");   // reserved acknowledge-flag bits: value rule, not framing
         p.session_present = f & 1;
         if (!dec_props(r, CONNACK, p.props, why)) return bad("props");
         if (!rc_listed(CONNACK, p.rc)) return bad("reason code");
